@@ -200,6 +200,49 @@ func c17Single() map[string]*model.Change {
 }
 
 func c17Gen(tier string, emit func(any)) {
+	// (emitted first: the thorough tier stops at its time budget before the end of the slot universe)
+	// equal-decls: a commented function among value declarations, some of which the rewrite makes equal to others
+	// (S: "var _ = foo(i)", rewritten to bar(i); B: "var _ = bar(j)"): every sequence over {S, B} of length <= 6
+	// (thorough 8) with at least one S x every position of the function
+	eq := &model.Change{Kind: "expr", Meta: []model.MetaVar{{Name: "a", Kind: "expression"}}, Lines: model.L("-foo(a)", "+bar(a)")}
+	const fnU = "// U doc.\nfunc U() {\n\t// inside U\n\tkeep() // trailing keep\n\t/* block in U */\n} // trailing U\n"
+	maxN := 6
+	if tier == "thorough" {
+		maxN = 8
+	}
+	for n := 1; n <= maxN; n++ {
+		for mask := 0; mask < 1<<n; mask++ {
+			if mask == 1<<n-1 {
+				continue // no S
+			}
+			for upos := 0; upos <= n; upos++ {
+				var decls []string
+				seq := ""
+				ns, nb := 0, 0
+				for i := 0; i <= n; i++ {
+					if i == upos {
+						decls = append(decls, fnU)
+						seq += "U"
+					}
+					if i == n {
+						break
+					}
+					if mask&(1<<i) == 0 {
+						ns++
+						decls = append(decls, fmt.Sprintf("var _ = foo(%d)\n", ns))
+						seq += "S"
+					} else {
+						nb++
+						decls = append(decls, fmt.Sprintf("var _ = bar(%d)\n", nb))
+						seq += "B"
+					}
+				}
+				for _, mode := range []string{"", "cli"} {
+					emit(&C17Case{PatchID: "expr-equal-decls", Changes: []*model.Change{eq}, Slots: map[string]string{"U": "doc, inside, trailing"}, Sites: seq, File: "package p\n\n" + strings.Join(decls, "\n"), Mode: mode})
+				}
+			}
+		}
+	}
 	patches := c17Patches()
 	var ids []string
 	for id := range patches {
@@ -274,48 +317,6 @@ func c17Gen(tier string, emit func(any)) {
 		}
 	}
 	rec(0, map[string]string{})
-	// equal-decls: a commented function among value declarations, some of which the rewrite makes equal to others
-	// (S: "var _ = foo(i)", rewritten to bar(i); B: "var _ = bar(j)"): every sequence over {S, B} of length <= 6
-	// (thorough 8) with at least one S x every position of the function
-	eq := &model.Change{Kind: "expr", Meta: []model.MetaVar{{Name: "a", Kind: "expression"}}, Lines: model.L("-foo(a)", "+bar(a)")}
-	const fnU = "// U doc.\nfunc U() {\n\t// inside U\n\tkeep() // trailing keep\n\t/* block in U */\n} // trailing U\n"
-	maxN := 6
-	if tier == "thorough" {
-		maxN = 8
-	}
-	for n := 1; n <= maxN; n++ {
-		for mask := 0; mask < 1<<n; mask++ {
-			if mask == 1<<n-1 {
-				continue // no S
-			}
-			for upos := 0; upos <= n; upos++ {
-				var decls []string
-				seq := ""
-				ns, nb := 0, 0
-				for i := 0; i <= n; i++ {
-					if i == upos {
-						decls = append(decls, fnU)
-						seq += "U"
-					}
-					if i == n {
-						break
-					}
-					if mask&(1<<i) == 0 {
-						ns++
-						decls = append(decls, fmt.Sprintf("var _ = foo(%d)\n", ns))
-						seq += "S"
-					} else {
-						nb++
-						decls = append(decls, fmt.Sprintf("var _ = bar(%d)\n", nb))
-						seq += "B"
-					}
-				}
-				for _, mode := range []string{"", "cli"} {
-					emit(&C17Case{PatchID: "expr-equal-decls", Changes: []*model.Change{eq}, Slots: map[string]string{"U": "doc, inside, trailing"}, Sites: seq, File: "package p\n\n" + strings.Join(decls, "\n"), Mode: mode})
-				}
-			}
-		}
-	}
 }
 
 type declComments struct {
